@@ -139,7 +139,11 @@ def _worker(task):
         for _i in range(count):
             if budget and budget.over():
                 break
-            net = G.random_net(rng, n_inputs=rng.randint(1, 4), k_gates=rng.randint(1, 8))
+            if _i % 100 == 7:
+                # every hundredth circuit is large (15..40 gates): behaviour that only changes beyond some size
+                net = G.random_net(rng, n_inputs=rng.randint(2, 6), k_gates=rng.randint(15, 40))
+            else:
+                net = G.random_net(rng, n_inputs=rng.randint(1, 4), k_gates=rng.randint(1, 8))
             if N.arity(net):
                 continue
             run(_with_blocks(net, rng.choice([0, 2, 2]), rng))
@@ -172,7 +176,7 @@ def run_bounded(rep, quick):
         'without blocks that contain rewritten gates; K=2: every node an output, with blocks) and on seeded random circuits: inputs, outputs, truth table (spec evaluator), '
         'remaining gate types, WF W1..W7 + real top_sort, arity, block membership of helper gates; '
         'non-trivial = distinct netlist containing at least one gate that must be rewritten',
-        'quick: K<=1 (arity<=3) and K=2 (arity<=2, 1..2 inputs) exhaustive + 3000 random K<=8; thorough: K<=2 arity<=3 exhaustive + 160000 random',
+        'quick: K<=1 (arity<=3) and K=2 (arity<=2, 1..2 inputs) exhaustive + 3000 random K<=8 (every hundredth: 15..40 gates, <=6 inputs); thorough: K<=2 arity<=3 exhaustive + 160000 random',
         exhaustive=False)
     tasks = []
     if quick:
